@@ -3,7 +3,7 @@
 # quick check (or, with ALL, against every claimed check) on a scratch copy of /repo; prints one line per pair.
 cd "$(dirname "$0")/.." || exit 2
 mode="$1"
-for d in seeded/C*-*/; do
+for d in seeded/${ONLY:-C*}-*/; do
   id=$(basename "$d"); pid=${id%-*}
   if [ "$mode" = ALL ]; then checks=$(cat tools/claimed.txt | sort -u | tr '\n' ' '); else checks=$pid; fi
   for c in $checks; do echo "$id $c"; done
